@@ -1256,10 +1256,37 @@ def m_warn(eng, *a, **k):
     return None
 
 
+def m_unicode_normalize(eng, form, s):
+    """unicodedata.normalize on a symbolic string: ASCII characters are fixed points of all four normal forms and never
+    combine with each other, so an all-ASCII string is returned as is (one fork per character on c < 128); as soon as one
+    character may be non-ASCII every symbolic character is taken value by value (the harness alphabet keeps them few) and
+    the REAL function runs on the concrete text."""
+    import unicodedata
+    if isinstance(s, LazyStr):
+        s = eng.force_str(s)
+    if not isinstance(s, SymStr):
+        return unicodedata.normalize(form, s)
+    ascii_only = True
+    for c in s.cs:
+        if isinstance(c, int):
+            if c >= 128:
+                ascii_only = False
+        elif not eng.truth(eng.cmp("Lt", c, 128)):
+            ascii_only = False
+    if ascii_only:
+        return s
+    out = []
+    for c in s.cs:
+        out.append(chr(c if isinstance(c, int) else eng.concretize_int(c, "character of a string being normalised", limit=48)))
+    return unicodedata.normalize(form, "".join(out))
+
+
 def install(eng):
     import builtins
     import warnings
     import decimal
+    import unicodedata
+    eng.models[unicodedata.normalize] = m_unicode_normalize
     eng.models[warnings.warn] = m_warn
     eng.models[decimal.Decimal] = m_decimal
     try:
